@@ -59,9 +59,25 @@ pub uninterp spec fn slice_s(s: &[F]) -> Seq<real>;
 pub trait MathView: Sized {
     spec fn dim_spec(&self) -> nat;
     spec fn model(&self) -> int;
+    /// ghost history of density evaluations (same text as dyn_facade.rs): total, and those ending in an unrecoverable error
+    spec fn evals(&self) -> nat;
+    spec fn fatal_evals(&self) -> nat;
+}
+/// a `&mut math` call that does not evaluate the density
+pub open spec fn no_eval<M: MathView>(m0: &M, m1: &M) -> bool { m1.evals() == m0.evals() && m1.fatal_evals() == m0.fatal_evals() }
+/// exactly one density evaluation; if it failed unrecoverably the call returned Err (quantifier-free form of
+/// "exists fatal. one_eval(m0, m1, fatal) && (fatal ==> is_err)")
+pub open spec fn one_eval_err<M: MathView>(m0: &M, m1: &M, is_err: bool) -> bool {
+    m1.evals() == m0.evals() + 1 && (m1.fatal_evals() == m0.fatal_evals() || (m1.fatal_evals() == m0.fatal_evals() + 1 && is_err))
+}
+/// a `&mut math` call that evaluates the density exactly once; `fatal`: it ended in an unrecoverable error
+pub open spec fn one_eval<M: MathView>(m0: &M, m1: &M, fatal: bool) -> bool {
+    m1.evals() == m0.evals() + 1 && m1.fatal_evals() == m0.fatal_evals() + (if fatal { 1nat } else { 0nat })
 }
 /// a `&mut math` call neither changes the dimension nor the density held by `math`
-pub open spec fn msame<M: MathView>(a: &M, b: &M) -> bool { a.dim_spec() == b.dim_spec() && a.model() == b.model() }
+pub open spec fn msame<M: MathView>(a: &M, b: &M) -> bool { a.dim_spec() == b.dim_spec() && a.model() == b.model() && no_eval(b, a) }
+/// same dimension and density, but the call may have evaluated the density
+pub open spec fn mkeep<M: MathView>(a: &M, b: &M) -> bool { a.dim_spec() == b.dim_spec() && a.model() == b.model() }
 
 pub trait Math: MathView {
     type Vector;
@@ -115,7 +131,7 @@ pub trait Math: MathView {
     fn box_array(&mut self, array: &Self::Vector) -> (r: FloatBox) ensures msame(final(self), old(self));
     /// the user's density: Ok(value) with the gradient written, or an error (recoverable or not)
     fn logp_array(&mut self, position: &Self::Vector, gradient: &mut Self::Vector) -> (r: Result<F, Self::LogpErr>)
-        ensures msame(final(self), old(self)),
+        ensures mkeep(final(self), old(self)), one_eval(old(self), final(self), r is Err && !r->Err_0.recoverable()),
                 r is Ok ==> r->Ok_0.r() == logp_of(old(self).model(), Self::vv(position))
                             && Self::vv(final(gradient)) == grad_of(old(self).model(), Self::vv(position));
 }
@@ -132,7 +148,7 @@ pub trait Transformation<M: Math>: Sized {
 
     fn init_from_untransformed_position(&self, math: &mut M, untransformed_position: &M::Vector, untransformed_gradient: &mut M::Vector,
         transformed_position: &mut M::Vector, transformed_gradient: &mut M::Vector) -> (r: Result<(F, F), M::LogpErr>)
-        ensures msame(final(math), old(math)),
+        ensures mkeep(final(math), old(math)), one_eval(old(math), final(math), r is Err && !r->Err_0.recoverable()),
             r is Ok ==> {
                 let x = M::vv(untransformed_position);
                 &&& M::vv(final(untransformed_gradient)) == grad_of(old(math).model(), x)
@@ -143,7 +159,7 @@ pub trait Transformation<M: Math>: Sized {
             };
     fn init_from_transformed_position(&self, math: &mut M, untransformed_position: &mut M::Vector, untransformed_gradient: &mut M::Vector,
         transformed_position: &M::Vector, transformed_gradient: &mut M::Vector) -> (r: Result<(F, F), M::LogpErr>)
-        ensures msame(final(math), old(math)),
+        ensures mkeep(final(math), old(math)), one_eval(old(math), final(math), r is Err && !r->Err_0.recoverable()),
             r is Ok ==> {
                 let x = self.inv(M::vv(transformed_position));
                 &&& M::vv(final(untransformed_position)) == x
@@ -202,12 +218,14 @@ pub trait Collector<M: Math, P: Point<M>> {
     spec fn leapfrogs(&self) -> nat;
     spec fn traj(&self) -> Map<int, StateView>;
     spec fn draws(&self) -> Seq<StateView>;
+    spec fn lf_post(&self, post: &Self, end: StateView, diverged: bool) -> bool;
     fn register_leapfrog(&mut self, math: &mut M, start: &State<M, P>, end: &State<M, P>, divergence_info: Option<&DivergenceInfo>)
         ensures msame(final(math), old(math)),
                 final(self).leapfrogs() == old(self).leapfrogs() + 1,
                 final(self).draws() == old(self).draws(),
                 divergence_info is None ==> final(self).traj() == old(self).traj().insert(end.view().idx, end.view()),
-                divergence_info is Some ==> final(self).traj() == old(self).traj();
+                divergence_info is Some ==> final(self).traj() == old(self).traj(),
+                old(self).lf_post(final(self), end.view(), divergence_info is Some);
 }
 
 pub open spec fn dir_sign(d: Direction) -> int { match d { Direction::Forward => 1, Direction::Backward => -1 } }
@@ -253,22 +271,33 @@ pub trait Hamiltonian<M: Math>: Sized {
                 LeapfrogResult::Err(e) => final(collector).traj() == old(collector).traj() && !e.recoverable(),
             },
             final(self).trans() == old(self).trans(),
+            // one leapfrog is one density evaluation; it returns Err exactly when that evaluation failed unrecoverably
+            one_eval(old(math), final(math), r is Err),
+            // the collector is notified through register_leapfrog(start, out, divergence?) (not on Err)
+            match r {
+                LeapfrogResult::Ok(out) => old(collector).lf_post(final(collector), out.view(), false),
+                LeapfrogResult::Divergence(_) => exists|e: StateView| #[trigger] old(collector).lf_post(final(collector), e, true),
+                LeapfrogResult::Err(_) => true,
+            },
             old(self).leapfrog_post(final(self), old(math), start, dir, step_size_factor.r(), energy_baseline.r(), max_energy_error.r(), r);
 
     fn is_turning(&self, math: &mut M, state1: &State<M, Self::Point>, state2: &State<M, Self::Point>) -> (r: bool)
         ensures
-            final(math).dim_spec() == old(math).dim_spec(),
+            final(math).dim_spec() == old(math).dim_spec(), no_eval(old(math), final(math)),
             // order-normalised by trajectory index (C01.5): the earlier state comes first
             r == (if state1.view().idx < state2.view().idx { self.turn_spec(state1.view(), state2.view()) }
                   else { self.turn_spec(state2.view(), state1.view()) });
 
     spec fn init_post(&self, m0: &M, init: &[F], r: Result<State<M, Self::Point>, NutsError>) -> bool;
     fn init_state(&mut self, math: &mut M, init: &[F]) -> (r: Result<State<M, Self::Point>, NutsError>)
-        ensures msame(final(math), old(math)), final(self).trans() == old(self).trans(), final(self).step() == old(self).step(),
+        ensures mkeep(final(math), old(math)), final(self).trans() == old(self).trans(), final(self).step() == old(self).step(),
+                // one density evaluation at `init`; ANY failure of it is an Err (same text as dyn_facade.rs)
+                one_eval_err(old(math), final(math), r is Err),
                 old(self).init_post(old(math), init, r);
     spec fn init_untr_post(&self, m0: &M, init: &[F], r: Result<State<M, Self::Point>, NutsError>) -> bool;
     fn init_state_untransformed(&mut self, math: &mut M, untransformed_position: &[F]) -> (r: Result<State<M, Self::Point>, NutsError>)
-        ensures msame(final(math), old(math)), final(self).trans() == old(self).trans(), final(self).step() == old(self).step(),
+        ensures mkeep(final(math), old(math)), final(self).trans() == old(self).trans(), final(self).step() == old(self).step(),
+                one_eval_err(old(math), final(math), r is Err),
                 old(self).init_untr_post(old(math), untransformed_position, r);
 
     spec fn traj_init_post(&self, m0: &M, s0: &State<M, Self::Point>, s1: &State<M, Self::Point>, resample: bool, log0: Seq<RngEv>, r: Result<(), NutsError>) -> bool;
@@ -281,7 +310,7 @@ pub trait Hamiltonian<M: Math>: Sized {
     ) -> (r: core::result::Result<(), NutsError>)
         requires old(state).unique@    // A-rc (callers are not checked for this: see DESIGN 6)
         ensures
-            final(math).dim_spec() == old(math).dim_spec(),
+            final(math).dim_spec() == old(math).dim_spec(), no_eval(old(math), final(math)),
             r is Ok ==> final(state).view().idx == 0 && final(state).view().e0 == final(state).view().energy,
             resaple_velocity ==> final(rng).log() == old(rng).log().push(RngEv::Momentum),
             !resaple_velocity ==> final(rng).log() == old(rng).log(),
@@ -295,7 +324,7 @@ pub trait Hamiltonian<M: Math>: Sized {
                 old(self).same_kernel(final(self));
     fn copy_state(&mut self, math: &mut M, state: &State<M, Self::Point>) -> (r: State<M, Self::Point>)
         ensures msame(final(math), old(math)), final(self).step() == old(self).step(), final(self).trans() == old(self).trans(),
-                state.p.copy_post(r.p), r.unique@;
+                state.p.copy_post(r.p), r.unique@, r.view() == state.view();
     fn step_size(&self) -> (r: F) ensures r.r() == self.step();
     fn step_size_mut(&mut self) -> (r: &mut F)
         ensures r.r() == old(self).step(), final(self).step() == final(r).r(), final(self).trans() == old(self).trans();
